@@ -117,7 +117,13 @@ LIMITS = (["0e32001", "0e99999", "-0.0E+99999", "1e-40000", "1e32001", "1e-32001
            "0" * 37 + "42", "0" * 400 + "7", "-" + "0" * 50 + "1", "0" * 39, "0" * 38 + "1.5", "0" * 254 + "5", "0" * 255 + "5", "0" * 256 + "5", "." + "0" * 255 + "5",
            "." + "0" * 256 + "5", "0" * 511 + "1", "0" * 512 + ".5", "1." + "0" * 255 + "1", "0." + "5" * 256, "00000000000000000000000000000000000000127", "-" + "0" * 40 + "128",
            "9007199254740993." + "0" * 1090 + "1", "16777217." + "0" * 1100 + "1", "0.5" + "0" * 1200 + "1", "0.4" + "9" * 1200, "1." + "0" * 1099 + "1", "2.5" + "0" * 1100 + "1",
-           "8388608.5" + "0" * 1100 + "1", "4503599627370496.5" + "0" * 1085 + "1", "0." + "0" * 1100 + "1"])
+           "8388608.5" + "0" * 1100 + "1", "4503599627370496.5" + "0" * 1085 + "1", "0." + "0" * 1100 + "1"]
+          # mantissas beyond 64 / 128 bits whose exponent brings the value back into range (and the mirror image: tiny
+          # mantissas with a large positive exponent)
+          + [m + "0" * k + ("e-%d" % k) for m in ("255", "-128", "127", "65535", "-32768", "4294967295", "2147483647", "18446744073709551615",
+                                                    "9223372036854775807", "-9223372036854775808", "1", "42") for k in (17, 20, 36, 37, 38, 39, 40, 45)]
+          + ["0." + "0" * k + m + ("e%d" % (k + len(m))) for m in ("255", "127", "65535", "4294967295") for k in (20, 38, 40)]
+          + ["255" + "0" * 38 + "E-38", "25.5" + "0" * 40 + "e1", "-12.8" + "0" * 45 + "e1", "2.55" + "9" * 0 + "0" * 39 + "e2"])
 
 
 def f32_double_rounding_literals(rng, n):
